@@ -30,6 +30,11 @@ UNIT_CHOICES = [
     {'molar enthalpy': 'cal/mol', 'temperature': 'mK'},
     {'molar entropy': 'J/(mol K)', 'temperature': 'kK'},
     {'molar heat capacity': 'J/(mol K)'},
+    # the same units in their other spellings: chained division, '*', products with negative powers
+    {'molar enthalpy': 'kcal/mol', 'molar entropy': 'cal/mol/K', 'molar heat capacity': 'cal/mol/K'},
+    {'molar enthalpy': 'kJ/mol', 'molar entropy': 'J/mol/K', 'molar heat capacity': 'kJ/mol/K', 'temperature': 'K'},
+    {'molar enthalpy': 'J mol^-1', 'molar entropy': 'J/(mol*K)', 'molar heat capacity': 'cal/(mol*K)'},
+    {'molar enthalpy': 'kJ mol^-1', 'molar entropy': 'J K^-1 mol^-1', 'molar heat capacity': 'J mol^-1 K^-1'},
 ]
 _m = {}
 
